@@ -1,7 +1,7 @@
 CONSTANTS
   SegsA = 3
   SegsB = 3
-  Fam = "uri"
+  Fam = "iri"
   Mode = "pct"
 INIT Init
 NEXT Next
